@@ -1,3 +1,121 @@
-import DosModel.Model.Util
--- stub: no model driver for this property yet
-def main : IO Unit := Dos.lineLoop (fun _ => "unimplemented")
+/-
+C04 driver: maps a case line of go/props/c04 to the model's output line.
+`lib` cases run the model of dkg.go (`Model/Dkg.lean`) with symbolic cryptography on the
+discrete-log instance `Zr`; keys and polynomials are fixed small numbers (the real run uses
+random ones – only result classes and equality classes of keys are compared).
+-/
+import DosModel.Model.Dkg
+import DosModel.Model.VssZr
+import DosModel.Model.DkgSim
+
+open Dos Dos.Vss Dos.Dkg
+
+namespace Dos.C04Drv
+
+abbrev S := Zr
+abbrev P := Zr
+def g : P := Zr.g
+
+def parseNat (s : String) : Nat := s.toNat?.getD 0
+
+def longOf (k : Nat) : S := Zr.ofNat (1000 + 7 * k)
+def polyOf (t k : Nat) : List S := (List.range t).map (fun m => Zr.ofNat (100 * k + 11 + 3 * m))
+def ephsOf (n j : Nat) : List S := (List.range n).map (fun i => Zr.ofNat (9000 + 10 * j + i))
+
+structure World where
+  n : Nat
+  gens : List (Option (Gen S P))
+  dealsOf : List (List (Nat × DkgDeal S P))      -- per dealer: (recipient, message)
+  resp : List (Nat × Nat × DkgResp S P)          -- (responder k, dealer j, message)
+
+def mkWorld (n : Nat) : World :=
+  let t := n / 2 + 1
+  let pubs := (List.range n).map (fun k => longOf k • g)
+  let init := (List.range n).map (fun k =>
+    match newGen g (longOf k) pubs (polyOf t k) with
+    | .error _ => (none, [])
+    | .ok d =>
+      match deals g d (ephsOf n k) with
+      | .ok (d1, ds) => (some d1, ds)
+      | _ => (none, []))
+  { n := n, gens := init.map (·.1), dealsOf := init.map (·.2), resp := [] }
+
+def getGen (w : World) (i : Nat) : Option (Gen S P) := (w.gens[i]?).join
+
+def stepEv (acc : World × List String) (ev : String) : World × List String :=
+  let (w, out) := acc
+  let kind := ev.take 1
+  let p := ((ev.drop 1).toString).splitOn "."
+  if kind.toString = "d" then
+    let j := parseNat (p.getD 0 ""); let i := parseNat (p.getD 1 "")
+    match getGen w i, ((w.dealsOf[j]?).getD []).find? (fun x => x.1 = i) with
+    | some d, some (_, m) =>
+      let (d1, r) := processDeal g d m
+      let w1 := { w with gens := w.gens.set i (some d1) }
+      match r with
+      | .error e => (w1, out ++ [e.name])
+      | .ok rm =>
+        let st := match rm.resp with | some r => r.status | none => false
+        ({ w1 with resp := w1.resp ++ [(i, j, rm)] }, out ++ [if st then "a" else "c"])
+    | _, _ => (w, out ++ ["bad"])
+  else
+    let k := parseNat (p.getD 0 ""); let j := parseNat (p.getD 1 ""); let i := parseNat (p.getD 2 "")
+    match w.resp.find? (fun x => x.1 = k ∧ x.2.1 = j) with
+    | none => (w, out ++ ["na"])
+    | some (_, _, m) =>
+      match getGen w i with
+      | none => (w, out ++ ["bad"])
+      | some d =>
+        let (d1, r) := processResponse g d m
+        let w1 := { w with gens := w.gens.set i (some d1) }
+        match r with
+        | .error e => (w1, out ++ [e.name])
+        | .ok _ => (w1, out ++ ["ok"])
+
+/-- equality classes of the finishers' commitment vectors, first seen = 0 -/
+def keyClasses (outs : List (Option (KeyShare S P))) : String :=
+  let step := fun (acc : List (List P) × String) (o : Option (KeyShare S P)) =>
+    match o with
+    | none => (acc.1, acc.2 ++ "-")
+    | some ks =>
+      match acc.1.findIdx? (fun c => c = ks.commits) with
+      | some k => (acc.1, acc.2 ++ toString k)
+      | none => (acc.1 ++ [ks.commits], acc.2 ++ toString acc.1.length)
+  (outs.foldl step ([], "")).2
+
+def finishLine (w : World) (evres : List String) : String :=
+  let outs := (List.range w.n).map (fun k =>
+    match getGen w k with
+    | none => (none, "bad")
+    | some d =>
+      match distKeyShare d with
+      | .ok ks => (some ks, "-")
+      | .err e => (none, e.name)
+      | .panic _ => (none, "panic"))
+  let fin := String.join (outs.map (fun o => if o.1.isSome then "1" else "0"))
+  s!"ev={String.intercalate "," evres} fin={fin} why={String.intercalate "," (outs.map (·.2))} keys={keyClasses (outs.map (·.1))}"
+
+def runLib (w : List String) : String :=
+  match w with
+  | [_, _seed, n, evs] =>
+    let n := parseNat n
+    let world := mkWorld n
+    let (w1, out) := if evs = "-" then (world, []) else (evs.splitOn ",").foldl stepEv (world, [])
+    finishLine w1 out
+  | _ => "bad-op"
+
+def step (line : String) : String :=
+  let w := words line
+  match w.head? with
+  | some "lib" => runLib w
+  | some "mem" => Dos.DkgSim.runLine w
+  | some "net" =>
+    -- networked level: every policy lets every message through eventually, so the model's answer is
+    -- `complete_delivery_finishes` + `agree`: everybody finishes on one key
+    let n := parseNat (w.getD 2 "")
+    s!"fin={String.join (List.replicate n "1")} keys={String.join (List.replicate n "0")}"
+  | _ => "bad-op"
+
+end Dos.C04Drv
+
+def main : IO Unit := Dos.lineLoop Dos.C04Drv.step
